@@ -41,6 +41,7 @@ def cols(code):
 contract(
     "xdis.cross_dis:findlinestarts", name="xdis.cross_dis:findlinestarts/co_lines",
     kind="generator",
+    when=lambda code: hasattr(code, "co_lines"),
     configs={"3.10": {"version_tuple": (3, 10), "dup_lines": False}, "3.11": {"version_tuple": (3, 11), "dup_lines": False},
              "3.12": {"version_tuple": (3, 12), "dup_lines": False}, "None": {"version_tuple": None, "dup_lines": False}},
     params={"code": Record(co_lines=TripleOptFn())},
